@@ -57,7 +57,7 @@ _CASE = dict(WORDS)
 # words by Unicode case class: a letter without case (CJK), a cased character that is not a letter (small roman
 # numeral, feminine ordinal), a title-case letter, a caseless digit-like character; judged by the transcription, whose
 # rule is the implementation's documented one (first letter at depth 0: upper case if isupper(), else lower case)
-SIGMA_CLASS = ["AA", "bb", "\u4e2d", "\u2177", "\u01c5", "\xaa", " ", ",", "{\\'1}X", "{\\'\u4e2d}x", "{\\'{\\i}}", "{\\'{\\I}}x"]  # (the last four: special characters holding a digit / a letter without case / their first letter as a control word in a nested group)
+SIGMA_CLASS = ["AA", "bb", "\u4e2d", "\u2177", "\u01c5", "\xaa", " ", ",", "{\\'1}X", "{\\'\u4e2d}x", "{\\'{\\i}}", "{\\'{\\I}}x", "{\\\xe9a}X"]  # (the last: a control word spelled with a non-ASCII letter; the four before it: special characters holding a digit / a letter without case / their first letter as a control word in a nested group)
 
 
 def bounds(tier):
@@ -328,6 +328,29 @@ def check_middleware(which, acc):
     elif which == 2:
         import itertools
 
+        # a user's subclass that answers name_fields itself (a property override: the documented read access is the one used)
+        class ReviewersToo(SplitNameParts):
+            @property
+            def name_fields(self):
+                return ("author", "reviewer")
+
+        for inplace in (True, False):
+            for keys in itertools.permutations(["author", "editor", "reviewer", "title"], 3):
+                e = Entry("book", "b", [Field(k, ["AA bb CC", "Knuth, Donald"] if k != "title" else "T") for k in keys])
+                case = {"middleware": "name_fields override", "order": list(keys), "inplace": inplace}
+                acc.trace()
+                acc.case(nontrivial_key=("override", keys, inplace))
+                try:
+                    out = ReviewersToo(allow_inplace_modification=inplace).transform(Library([e])).blocks[0]
+                    got = [(f.key, [as_dict(p) for p in f.value] if isinstance(f.value, list) and not isinstance(f.value[0], str) else f.value) for f in out.fields]
+                except Exception as ex:
+                    acc.exception(ex, case, "SplitNameParts subclass overriding name_fields")
+                    continue
+                split = [as_dict(parse_single_name_into_parts(n)) for n in ("AA bb CC", "Knuth, Donald")]
+                exp = [(k, split if k in ("author", "reviewer") else ("T" if k == "title" else ["AA bb CC", "Knuth, Donald"])) for k in keys]
+                if got != exp:
+                    acc.violation({"oracle": "each_name_field_gets_its_own_parts", "field": "the fields name_fields answers"}, {"case": case, "observed": repr(got)[:300], "expected": repr(exp)[:300]})
+
         names = {"author": ["Ludwig van Beethoven", "AA bb CC"], "editor": ["de la Fontaine, Jr, Jean"], "translator": ["{cc} DD"]}
         for order in itertools.permutations(["author", "editor", "translator", "title"]):
             for inplace in (True, False):
@@ -444,6 +467,8 @@ def replay(case, acc):
         return check_key_twice(acc)
     if "name" in case:
         check_name(case["name"], acc, None, case)
+    elif case.get("middleware") in ("name_fields override", "field order"):
+        check_middleware(2, acc)
     elif "middleware" in case:
         check_middleware(0, acc)
     else:
